@@ -134,8 +134,8 @@ def render(tree, api):
                 rhs = ex(st[2])
                 if api and rhs.lstrip("-").isdigit():
                     rhs = "ConstVal(%s)" % rhs      # keep tracked variables secret-typed so that every condition is a secret one
-                if "[" in st[1] and not api:
-                    rhs = rhs       # in-place element update of a native list
+                if not api:
+                    rhs = "chk(%s)" % rhs
                 emit(ind, "%s = %s" % (("_.%s" % st[1]) if api else st[1], rhs))
             elif k == "if":
                 _, c, then, elifs, els, newvar = st
@@ -199,6 +199,16 @@ class TwinMustRaise(Exception):
     pass
 
 
+class TwinOutOfDomain(Exception):
+    """a tracked value left the range in which every comparison of the program fits the bitlength"""
+
+
+def chk(v):
+    if isinstance(v, int) and abs(v) >= 1 << 28:
+        raise TwinOutOfDomain(v)
+    return v
+
+
 def main():
     tier = common.tier()
     nshards, nprogs = (16, 25) if tier == "quick" else (32, 500)
@@ -245,12 +255,15 @@ def worker(job):
         completed = []
         vectors = [[rnd.randint(0, 6), rnd.randint(0, 6), rnd.randint(0, 6)] for _ in range(5)] + [[0, 0, 0], [rnd.randint(0, 3)] * 3]
         for inputs in vectors:
-            tns = {"I": list(inputs), "TwinMustRaise": TwinMustRaise, "NEG": []}
+            tns = {"I": list(inputs), "TwinMustRaise": TwinMustRaise, "NEG": [], "chk": chk}
             texc = None
             try:
                 exec(twin_code, tns)
             except TwinMustRaise as e:
                 texc = e
+            except TwinOutOfDomain:
+                R.count("twin_out_of_domain_not_judged")
+                continue
             ncond0 = recorder.calls["add_constraint"]
             out = G.run_api(prog, inputs, N, modulus=p, chunks=chunks)
             R.count("runs")
